@@ -335,8 +335,11 @@ def _creator(name, fill):
         elif isinstance(shape, (tuple, list)):
             shape = tuple(int(s) for s in shape)
         if _is_floatish(dtype):
-            if int(np.prod(shape)) == 0:
-                return real(shape, dtype=builtins.float, order=order)  # no cells: keep the real float dtype
+            if int(np.prod(shape)) == 0 and name == "empty":
+                # placeholders stacked with integer arrays (np.empty((0, n))): keep the real float dtype so that the
+                # dtype of the stacked result is the one real NumPy produces; zeros / ones are accumulators that
+                # receive symbolic values in place and stay object arrays
+                return real(shape, dtype=builtins.float, order=order)
             a = np.empty(shape, dtype=object, order=order).view(SA)
             a[...] = 0.0 if fill is None else fill
             return a
